@@ -189,7 +189,18 @@ def run_async(ctx: Ctx, cfg: dict) -> dict:
             info["first"] = "cancelled"
         elif t1.exception() is not None:
             raise t1.exception()
+        polls = 0
         while not (got and got[-1] is None):
+            if layer.startswith("srv") and kind == "yielded_timeout" and polls % 2 == 0:
+                # the handler polls with a zero timeout every other yield: a request that is already buffered must
+                # still be delivered (now or at the next yield), never dropped
+                polls += 1
+                try:
+                    got.append(await srv_next(0))
+                except TimeoutError:
+                    pass
+                continue
+            polls += 1
             got.append(await recv_once())
         if kind == "canceller_task":
             ct.cancel()
